@@ -230,15 +230,20 @@ CLAIMS = {
              "answers to unlinkat, rmdir, the O_DIRECTORY|O_NOFOLLOW open, dirOpen/dirNext; state threaded by exec) the model of "
              "remove_all succeeds, the named entry is gone, every directory below it is empty, the parent lost exactly that entry, "
              "no other directory and no kind changed — for every finite tree and any fuel above rank+3; an absent entry is success "
-             "with nothing changed (C13_absent). Tie and oracle: "
+             "with nothing changed (C13_absent); C13_converges (rely/guarantee, Proofs/RmAllRace.lean): with environment steps "
+             "interleaved before every system call that may remove entries anywhere but never add one (any number of other "
+             "remove_all callers; directory streams deliver names that may be gone by then), the call succeeds, the named entry is "
+             "absent afterwards, the whole history only removed entries (so N callers compose) and everything the call itself "
+             "removed is the named entry or lies below it in the initial tree. Tie and oracle: "
              "remove_all on generated trees (deep/wide subtrees, links to siblings/parents/outside, hard links) and path spellings on "
              "both backends, replayed through the model; exact-effect oracle over a snapshot of the root *and its surroundings*: "
              "exactly the named subtree disappears, link targets inside and outside untouched, a failure removes nothing outside the "
              "subtree. Racing-threads suite: 2-6 threads remove the same non-empty directory; all must report success, the entry must "
              "be absent, nothing else changed; every thread's transcript is replayed through the model.",
-        note="theorem partial: that *all* racing callers succeed (progress) is decided by the racing suite, not proved. Finding F1 "
+        note="The mutable tree RFS (answers and effects of unlinkat/rmdir/open/dirOpen/dirNext; directory streams as snapshots) is a "
+             "trusted statement of kernel behaviour like Kernel/World; the effect oracle and the racing suite observe the real one. Finding F1 "
              "(remove_all of '.'/'..' emptied the parent) was repaired earlier; before it C13_dot_refused was false.",
-        technique="Lean 4 proof (Safe logic with a mutation-target predicate; run inversion: success implies a kernel witness of absence) + exact-effect differential + racing-threads replay",
+        technique="Lean 4 proof (Safe logic with a mutation-target predicate; run inversion; refinement against a mutable tree; rely/guarantee convergence under concurrent removal) + exact-effect differential + racing-threads replay",
         ref="DESIGN.md §8 C13"),
     "C14": dict(
         text="Lean theorems (Props/C14.lean), for every environment: a successful create (all inode types but hard links), remove_file, "
